@@ -432,8 +432,9 @@ class C20(Prop):
         heap0, roots0 = p.snapshot([x])
         events = []
         out = None
+        prev_res = None
         for op in ("jsx_tagify", "jsx_str", "jsx_tagify"):
-            ev = {"op": op, "ro": True, "root": 1, "newroot": 0, "via": 0, "res": "", "eq": True, "arg": "conv"}
+            ev = {"op": op, "ro": True, "root": 1, "newroot": 0, "via": 0, "res": "", "eq": True, "arg": "conv", "prevnew": 0}
             try:
                 if op == "jsx_tagify":
                     t = x.tagify()
@@ -447,9 +448,13 @@ class C20(Prop):
             except Exception as ex:  # noqa
                 ev["res"] = "EXC:" + type(ex).__name__
             res_obj = ev.pop("_result", None)
-            heap, rs = p.snapshot([x] + ([res_obj] if res_obj is not None else []))
+            extra = ([res_obj] if res_obj is not None else []) + ([prev_res] if prev_res is not None and res_obj is not None else [])
+            heap, rs = p.snapshot([x] + extra)
             ev["heap"], ev["roots"] = heap, rs[:1]
             ev["newroot"] = rs[1] if res_obj is not None else 0
+            ev["prevnew"] = rs[2] if len(rs) > 2 else 0
+            if res_obj is not None:
+                prev_res = res_obj
             events.append(ev)
         recs = [{"k": "hist", "heap0": heap0, "roots0": roots0, "events": events, "gen": g, "_module": "HeapTrace"}]
         conv = {"k": "conv", "tree": tree, "parsed": False, "expr": {"e": "str", "name": [], "quoted": False, "props": [], "kids": [], "t": []},
